@@ -518,7 +518,7 @@ def run(ctx):
             # a known class is accepted only where the model's obligation predicts it for this very schema
             accepted = []
             for k, sig in r.classes:
-                if p is None:
+                if p is None and k not in B.MESSAGE_ONLY_CLASSES:
                     continue
                 if k in B.MESSAGE_ONLY_CLASSES:
                     pat = next(pt for kk, _, pt in B.CLASS_PATTERNS if kk == k)
